@@ -14,9 +14,16 @@
 //	full      (UDP cases) the same with TCP semantics, i.e. before truncation,
 //	          with the length table Truncate works on (Msg.Len of growing prefixes)
 //
+// Owner names are reported exactly; Run/C20.v compares records as multisets of
+// (lower-cased owner, type, class, ttl, rdata), the question section, header bits,
+// id and wire length exactly.
+//
 // The server runs in a child process so that a crash of the server (for example
 // an index panic in a front handler) is an observation (alive=false), not a
-// crash of the harness.
+// crash of the harness.  Configurations with "accept_all" replace miekg's
+// dns.DefaultMsgAcceptFunc in the child so that messages without exactly one
+// question reach fbserver's serveMux (with the default function miekg answers
+// them itself with FORMERR and the guard is never reached).
 package main
 
 import (
